@@ -971,19 +971,15 @@ func (c *callable) Value(env *env) reflect.Value {
 		}
 		err := nvm.runFunc(fn, vars)
 		if err != nil {
-			if p, ok := err.(*PanicError); ok {
-				var msg string
-				for ; p != nil; p = p.next {
-					msg = "\n" + msg
-					if p.recovered {
-						msg = " [recovered]" + msg
-					}
-					msg = p.String() + msg
-					if p.next != nil {
-						msg = "\tpanic: " + msg
-					}
-				}
-				err = &fatalError{msg: msg}
+			switch err.(type) {
+			case *PanicError:
+				// The panic continues in the caller: if the caller is
+				// executed by a virtual machine, it can recover the panic.
+			case stopError, *fatalError:
+			default:
+				// The context has been canceled: stop the execution of the
+				// caller with the same error.
+				err = stopError{err}
 			}
 			panic(err)
 		}
